@@ -6,6 +6,7 @@ import (
 	"fmt"
 	"go/constant"
 	"go/token"
+	"math/big"
 	"sort"
 	"strings"
 
@@ -325,7 +326,7 @@ func gapTableString(as []gapAction) string {
 
 func r04_2(c *Ctx, r *Report) {
 	const rule = "R04.2"
-	r.rule(rule, "The 1582 gap is described consistently. A gap site is a region of code that runs only when something == 1582 and something == 10 are known (E13 facts: nested or merged ifs, boolean helpers), in a function or in the helpers it hands its work to. The two stepping functions that contain loops are analysed by path enumeration with interval constraints on the day inside their sites: GetDaysInYear rejects 5..14 and subtracts 10 from 15..31; NextDay removes the 10 missing days before stepping and re-inserts them after (days > 4), the removal looking at the receiver's own year and month and the re-insertion at the year and month the result is built with, and the two tests are passed as a pair (no path returns after the removal test without passing the re-insertion test, or reaches the second without the first; a path that passes neither returns its input unchanged). The loop-free sites (NewSolar, NextYear, NextMonth, GetDaysOfMonth and their helpers) are decided as decision tables by R04.8; a gap site in a function that none of these reaches is unreviewed and fails. GetJulianDay's switch constant is 1582*372+10*31+15; NewSolarFromJulianDay's switch constant is the day number of 1582-10-15.")
+	r.rule(rule, "The 1582 gap is described consistently. A gap site is a region of code that runs only when something == 1582 and something == 10 are known (E13 facts: nested or merged ifs, boolean helpers), in a function or in the helpers it hands its work to. The two stepping functions that contain loops are analysed by path enumeration with interval constraints on the day inside their sites: GetDaysInYear rejects 5..14 and subtracts 10 from 15..31; NextDay removes the 10 missing days before stepping and re-inserts them after (days > 4), the removal looking at the receiver's own year and month and the re-insertion at the year and month the result is built with, and the two tests are passed as a pair (no path returns after the removal test without passing the re-insertion test, or reaches the second without the first; a path that passes neither returns its input unchanged). The loop-free sites (NewSolar, NextYear, NextMonth, GetDaysOfMonth and their helpers) are decided as decision tables by R04.8; a gap site in a function that none of these reaches is unreviewed and fails. GetJulianDay compares 372*year + 31*month + whole day — an affine form over its parameters (E11b), the year and month as given, not after January and February were moved to the end of the previous year — with 1582*372+10*31+15; NewSolarFromJulianDay's switch constant is the day number of 1582-10-15.")
 	expect := map[string][]string{
 		"SolarUtil.GetDaysInYear":   {"[5,14]:panic [15,31]:-10"},
 		"calendar.(*Solar).NextDay": {"[5,31]:-10", "[5,31]:+10"},
@@ -388,10 +389,68 @@ func r04_2(c *Ctx, r *Report) {
 	}
 	// constants
 	hasConst := func(fn *ssa.Function, k float64) bool { return fn != nil && floatConstsOf(fn)[k] }
-	if fn := c.Fn(r, rule, "SolarUtil.GetJulianDay"); fn != nil {
-		want := float64(1582*372 + 10*31 + 15)
-		r.check(hasConst(fn, want) && hasConst(fn, 372) && hasConst(fn, 31), rule, "SolarUtil.GetJulianDay switches to the Gregorian correction at 1582-10-15", c.fnPos(fn),
-			fmt.Sprintf("y*372 + m*31 + d >= %.0f (= 1582*372 + 10*31 + 15)", want))
+	if fn := c.Fn(r, rule, "SolarUtil.GetJulianDay"); fn != nil && len(fn.Params) == 6 {
+		// the quantity compared with 1582*372 + 10*31 + 15, as an affine form over the parameters (E11b): 372 times
+		// the year and 31 times the month as they were given (not after January and February have been moved
+		// to the end of the previous year) plus the whole day
+		want := int64(1582*372 + 10*31 + 15)
+		found, detail := false, "no comparison with 1582*372 + 10*31 + 15 found"
+		for _, f := range withHelpers(c, fn) {
+			if f != fn {
+				continue // the comparison is read over the parameters of GetJulianDay itself
+			}
+			for _, b := range f.Blocks {
+				for _, ins := range b.Instrs {
+					bo, ok := ins.(*ssa.BinOp)
+					if !ok {
+						continue
+					}
+					var other ssa.Value
+					var k int64
+					op := bo.Op
+					if kk, ok := constInt(bo.Y); ok {
+						other, k = bo.X, kk
+					} else if kk, ok := constInt(bo.X); ok {
+						other, k = bo.Y, kk
+						op = map[token.Token]token.Token{token.GEQ: token.LEQ, token.LEQ: token.GEQ, token.GTR: token.LSS, token.LSS: token.GTR}[op]
+					} else {
+						continue
+					}
+					// other >= want, other > want-1, other < want, other <= want-1
+					if !((op == token.GEQ || op == token.LSS) && k == want) && !((op == token.GTR || op == token.LEQ) && k == want-1) {
+						continue
+					}
+					form := ratAffineOf(&evalFrame{fn: fn}, other, 0)
+					var rest []string
+					for n, q := range form.coef {
+						if n != fn.Params[0].Name() && n != fn.Params[1].Name() {
+							rest = append(rest, q.RatString()+"*"+n)
+						}
+					}
+					sort.Strings(rest)
+					dayOK := false
+					if len(rest) == 1 && form.coef[fn.Params[2].Name()] != nil && form.coef[fn.Params[2].Name()].Cmp(big.NewRat(1, 1)) == 0 {
+						dayOK = true // the day itself
+					} else if len(rest) == 1 && strings.HasPrefix(rest[0], "1*[") {
+						// the whole part of day + time of day
+						name := strings.TrimSuffix(strings.TrimPrefix(rest[0], "1*["), "@"+fn.Name()+"]")
+						for _, b2 := range fn.Blocks {
+							for _, i2 := range b2.Instrs {
+								if cv, ok := i2.(*ssa.Convert); ok && cv.Name() == name && isFloatType(cv.X.Type()) && isIntType(cv.Type()) {
+									in := ratAffineOf(&evalFrame{fn: fn}, cv.X, 0)
+									dayOK = ratCoefString(in, fn.Params[2].Name()) == "1" && ratCoefString(in, fn.Params[0].Name()) == "0" && ratCoefString(in, fn.Params[1].Name()) == "0"
+								}
+							}
+						}
+					}
+					detail = fmt.Sprintf("compared with %d: %s*year + %s*month + %v + %s", want, ratCoefString(form, fn.Params[0].Name()), ratCoefString(form, fn.Params[1].Name()), rest, form.k.RatString())
+					if ratCoefString(form, fn.Params[0].Name()) == "372" && ratCoefString(form, fn.Params[1].Name()) == "31" && form.k.Sign() == 0 && dayOK {
+						found = true
+					}
+				}
+			}
+		}
+		r.check(found, rule, "SolarUtil.GetJulianDay switches to the Gregorian correction at 1582-10-15", c.fnPos(fn), detail+" (stated: 372*year + 31*month + whole day of the date as given)")
 	}
 	if fn := c.Fn(r, rule, "calendar.NewSolarFromJulianDay"); fn != nil {
 		// day number of 1582-10-15 (Gregorian) by the standard civil-to-day-number formula
